@@ -184,15 +184,15 @@ func (e *Enc) panicsWhen(st *State, anchor string, cl Clause, cond Term, key str
 	if e.protected {
 		prot = e.comp(st, "X:protected", SBool)
 	}
-	if prot.S == "true" {
-		// inside a recover region: the panic is caught; fork the exceptional state
+	e.obligeNoAssume("pre", anchor, clauseProps(cl, e.autoProps()), st.reach, Or(prot, Not(cond)), "callee "+key+" panics when "+cl.Text+" and no recover region is active here", ins.Pos())
+	if e.protected {
+		// inside a recover region the panic is caught: fork the exceptional state
 		ps := st.clone()
-		ps.reach = e.def("reach_panic", And(st.reach, cond))
+		ps.reach = e.def("reach_panic", And(st.reach, cond, prot))
 		e.panicStates = append(e.panicStates, ps)
-		e.assume(st.reach, Not(cond))
-		return
 	}
-	e.oblige("pre", anchor, clauseProps(cl, e.autoProps()), st.reach, Or(prot, Not(cond)), "callee "+key+" panics when "+cl.Text+" (no recover region here)", ins.Pos())
+	// normal continuation: the callee did not panic
+	e.assume(st.reach, Not(cond))
 }
 
 func (e *Enc) finishPanics() {
@@ -236,6 +236,60 @@ type frameGoal struct {
 	desc string
 }
 
+// ownStoreTargets: locations of the activation's own objects (fields of parameters) that the function stores to
+// directly. Inside loops they are exempt from the frame (a field that is written and restored, like runInfo.env,
+// need not be listed; the restoration is proved by the ensures at every exit, where the full frame applies).
+func (e *Enc) ownStoreTargets() map[string][]Term {
+	if e.ownStores != nil {
+		return e.ownStores
+	}
+	e.ownStores = map[string][]Term{}
+	for _, b := range e.fn.Blocks {
+		for _, ins := range b.Instrs {
+			st, ok := ins.(*ssa.Store)
+			if !ok {
+				continue
+			}
+			fa, ok := st.Addr.(*ssa.FieldAddr)
+			if !ok {
+				continue
+			}
+			// base must be (a load of) a parameter
+			var p *ssa.Parameter
+			switch x := fa.X.(type) {
+			case *ssa.Parameter:
+				p = x
+			case *ssa.UnOp:
+				if a, ok := x.X.(*ssa.Alloc); ok {
+					for _, r := range *a.Referrers() {
+						if s2, ok := r.(*ssa.Store); ok && s2.Addr == a {
+							if pp, ok := s2.Val.(*ssa.Parameter); ok {
+								p = pp
+							} else {
+								p = nil
+								break
+							}
+						}
+					}
+				}
+			}
+			if p == nil {
+				continue
+			}
+			structT := fa.X.Type().Underlying().(*types.Pointer).Elem()
+			f := structT.Underlying().(*types.Struct).Field(fa.Field)
+			if isStructVal(f.Type()) {
+				continue
+			}
+			if pv, ok := e.vals[p]; ok {
+				h := "H:" + typeName(structT) + "." + f.Name()
+				e.ownStores[h] = append(e.ownStores[h], pv.T)
+			}
+		}
+	}
+	return e.ownStores
+}
+
 func (e *Enc) checkModifies(st *State, ins *ssa.Return) {
 	for _, g := range e.frameGoals(st, nil) {
 		e.oblige("frame", "modifies."+g.name, e.c.Props, st.reach, g.goal, g.desc, ins.Pos())
@@ -244,7 +298,7 @@ func (e *Enc) checkModifies(st *State, ins *ssa.Return) {
 
 // frameGoals: for every component that differs from its entry value, the formula "only locations named in
 // the modifies clause differ". only: restrict to these components (nil = all).
-func (e *Enc) frameGoals(st *State, only map[string]bool) []frameGoal {
+func (e *Enc) frameGoals(st *State, exempt map[string][]Term) []frameGoal {
 	var out []frameGoal
 	if e.c == nil || e.c.ModifiesAll || e.c.Trusted {
 		return nil
@@ -325,9 +379,6 @@ func (e *Enc) frameGoals(st *State, only map[string]bool) []frameGoal {
 	}
 	for _, name := range sortedKeys(st.heaps) {
 		cur := st.heaps[name]
-		if only != nil && !only[name] {
-			continue
-		}
 		if whole[name] || strings.HasPrefix(name, "X:defer_") || name == "X:protected" || name == "X:section" || name == "X:held" {
 			continue
 		}
@@ -348,6 +399,9 @@ func (e *Enc) frameGoals(st *State, only map[string]bool) []frameGoal {
 			if tg.idx == nil {
 				excl = append(excl, Eq(o, tg.obj))
 			}
+		}
+		for _, x := range exempt[name] {
+			excl = append(excl, Eq(o, x))
 		}
 		body := Eq(Select(cur, o), Select(old, o))
 		// element-level targets of nested heaps
